@@ -1212,6 +1212,66 @@ func replay(bi int, beh []mbt.Step, in *mbt.Input, res *mbt.Result) {
 		fail(&mbt.Violation{Property: "C09", Behaviour: bi, Step: len(beh), What: w.fsViol[0]})
 		return
 	}
+	// storage read faults: a read of the final database whose n-th storage read fails may report the failure (error or
+	// panic); it must not answer with anything but the latest writes (a failed read treated as "not found" shows an
+	// older level's value or nothing)
+	if in.CfgBool("ReadFaults", false) {
+		errInjected := fmt.Errorf("injected storage fault: read failed (connection reset by peer)")
+		try := func(n int, f func() readRes) (readRes, bool) {
+			cnt, fired := 0, false
+			var mu sync.Mutex
+			w.view.FailRead = func(string) error { // the database is quiescent: every read belongs to f (scans pull through coroutines)
+				mu.Lock()
+				defer mu.Unlock()
+				if cnt++; cnt == n {
+					fired = true
+					return errInjected
+				}
+				return nil
+			}
+			r := f()
+			w.view.FailRead = nil
+			return r, fired
+		}
+		w.passReads.Store(true)
+		defer w.passReads.Store(false)
+		for _, k := range allKeys {
+			for n := 1; n <= 6; n++ {
+				r, fired := try(n, func() readRes { return w.getAll(w.db, []int{k}) })
+				if !fired {
+					break
+				}
+				res.Count("gets_with_a_failing_read", 1)
+				if r.pan != nil || r.err != nil {
+					res.Count("failing_read_reported_by_get", 1)
+					continue
+				}
+				if r.vals[k] != oracle[k] {
+					fail(&mbt.Violation{Property: "C07", Behaviour: bi, Step: len(beh),
+						What:     fmt.Sprintf("Get(%q) whose storage read #%d failed does not report the failure and does not return the latest write", w.key(k), n),
+						Expected: oracle[k], Observed: r.vals[k]})
+					return
+				}
+			}
+		}
+		for n := 1; n <= 10; n++ {
+			r, fired := try(n, func() readRes { return w.scan(w.db, nil) })
+			if !fired {
+				break
+			}
+			res.Count("scans_with_a_failing_read", 1)
+			if r.pan != nil || r.err != nil {
+				res.Count("failing_read_reported_by_scan", 1)
+				continue
+			}
+			if !sameContent(r.vals, live) || !sortedAsc(r.order) {
+				fail(&mbt.Violation{Property: "C07", Behaviour: bi, Step: len(beh),
+					What:     fmt.Sprintf("ScanPrefix(all) whose storage read #%d failed does not report the failure and does not return exactly the live keys", n),
+					Expected: live, Observed: fmt.Sprintf("%v %v", r.vals, r.order)})
+				return
+			}
+		}
+	}
 	res.Count("skipped_bg_steps", w.skipped)
 	res.Count("flush_builds_during_compaction_builds", w.overlaps)
 	res.Executed++
